@@ -81,6 +81,12 @@ class LockInjector(Controller):
                 self.hold()
             elif self.mode == 'release' and self.begins == self.k:
                 self.release()
+            elif self.mode == 'flap':
+                # the lock is taken and given back repeatedly while a looping call is under way
+                if self.begins % 4 == 2:
+                    self.hold()
+                elif self.begins % 4 == 0:
+                    self.release()
         elif kind == 'sql-error' and label.lstrip().upper().startswith('BEGIN'):
             self.failed += 1
 
@@ -291,6 +297,7 @@ def all_cells():
             for cfg in (['fast'] if name not in ('getitem', 'read') else ['stats', 'lru']):
                 for k in (1, 2, 3, 5):
                     cells.append(('fanout', 'loop:' + name, ('release', k), val, True, cfg))
+                cells.append(('fanout', 'loop:' + name, ('flap',), val, True, cfg))
     for target, table in (('deque', deque_ops()), ('index', index_ops())):
         for name in table:
             for val in ('inline', 'file'):
@@ -428,6 +435,8 @@ def execute_cell(env, cell, pre):
     pre = dict(pre)
     if kind == 'bulk' or name.startswith('loop:'):
         pre.setdefault('bulk', 150)
+        if inj[0] == 'flap':
+            pre['bulk'] = max(pre['bulk'], 520)  # several 100-row pages per shard: several partial counts
     sig = 'C14/%s.%s/%s' % (target, name, inj[0])
     desc = 'cell=%r pre=%r' % (cell, {k: (v if k != 'kv' else '...') for k, v in pre.items()})
     world = World(env, target, cfg, pre, clock)
@@ -455,7 +464,7 @@ def execute_cell(env, cell, pre):
         contended = injector.failed >= 1
         injector.release()
         after = world.snapshot()
-        releasing = inj[0] == 'release'
+        releasing = inj[0] in ('release', 'flap')
         if kind == 'read':
             # lookups that need no write keep working while another client holds the lock
             expect = None
@@ -478,8 +487,8 @@ def execute_cell(env, cell, pre):
                 expect = ('timeout', exc.args)
             except Exception as exc:
                 expect = ('exc', type(exc).__name__, str(exc)[:200])
-            if result[0] == 'timeout' and not (inj[1] > 1 and not retry):
-                raise Violation(sig + '/timeout-despite-release', 'the lock was released at BEGIN attempt %d (retry=%r) but the call reported %s\n%s' % (inj[1], retry, short(result), desc))
+            if result[0] == 'timeout' and not (inj[0] == 'release' and inj[1] > 1 and not retry):
+                raise Violation(sig + '/timeout-despite-release', 'the lock was released (%r, retry=%r) but the call reported %s\n%s' % (inj, retry, short(result), desc))
             if strict(_norm(result)) != strict(_norm(expect)):
                 raise Violation(sig + '/result-differs-from-unfaulted', 'result %s, unfaulted twin %s\n%s' % (short(result), short(expect), desc))
             if strict(world.logical()) != strict(twin.logical()):
